@@ -592,6 +592,10 @@ func (e *EdgeQuery) initQueue() {
 	if len(e.indexCovering) == 0 {
 		// We delay iterator initialization until now to make queries on very
 		// small indexes a bit faster (i.e., where brute force is used).
+		// An unpositioned iterator does not apply pending index updates by
+		// itself. Apply them first, so that the iterator never reads a stale
+		// cell list (or one that another goroutine is still building).
+		e.index.maybeApplyUpdates()
 		e.iter = NewShapeIndexIterator(e.index)
 	}
 
